@@ -10,9 +10,9 @@ THEOREMS = ["Mpir.Io.out_raw_format", "Mpir.Io.raw_roundtrip", "Mpir.Io.inp_raw_
             "Mpir.Io.str_stream_roundtrip_partial"]
 TRUSTED = ["hand-written models lean/Mpir/Model/Io.lean of mpz/{export,import,out_raw,inp_raw,out_str,inp_str}.c, "
            "mpq/{out_str,inp_str}.c, mpf/{out_str,inp_str}.c and the gmp_fprintf path (tied by correspondence on every run)",
-           "libc stream semantics (fopencookie, setvbuf(_IONBF), fwrite/fputc/getc/ungetc, sticky ferror) as modelled by Stream/OStream",
+           "libc stream semantics (fopencookie, setvbuf(_IONBF), fwrite/fputc/getc/ungetc, short write = short count + sticky ferror) as modelled by Stream/OStream",
            "mpf digit generation/parsing (mpf_get_str, mpf_set_str) is an input of the stream-level mpf model (checked by predicate ops)"]
-ASSUMPTIONS = ["write faults are one-shot failures of the write call containing byte k of an unbuffered stream; read faults are EOF after k bytes",
+ASSUMPTIONS = ["write faults: the write call containing byte k of an unbuffered stream accepts the bytes in front of k (a short write) and every later call nothing (part c17_stream: also a recovering sink and one that caps every call; the theorems hold for every sink); read faults are EOF after k bytes",
                "raw headers announcing more than 2^20 bytes are not sent to the library (it allocates before reading); they are covered by the theorem inp_raw_total only"]
 RULE = ("export/import: every (size<=4, order, endian, nails) combination, size 5..16 with nails sampled at 0,1,7,8,9,8*size-1,random, "
         "all alignments 0..7 on the size=8 fast paths, values 0,1,2^k+-1,random to 50 limbs, import also on arbitrary bytes; "
